@@ -40,7 +40,8 @@ RULE = ('case = one decode (trajectory) or one lattice (geometry: all its '
         'edges); distinct = (decoder, lattice, error, seed); non-trivial = '
         'the decode performed at least one sweep step that flipped an edge')
 ASSUMPTIONS = ['supported size family = pv/families.py']
-REQUIRED_COUNTERS = ['edges_geometry_checked', 'sweep_steps_observed',
+REQUIRED_COUNTERS = ['retained_corrections_rechecked',
+                     'edges_geometry_checked', 'sweep_steps_observed',
                      'edge_flips_observed', 'decodes_observed',
                      'clean_stops_checked', 'tie_breaks_observed',
                      'edges_flipped_twice_observed', 'all_8_directions',
@@ -278,7 +279,8 @@ def observe_decode(out, dname, code, dec, error_int, desc, mech, bad_edges):
     s = gf2.unpack(gf2.syndrome_int(H, error_int, n), m).astype('uint8')
     MON.begin(code, error_int, desc, mech, bad_edges)
     try:
-        c = np.asarray(dec.decode(s))
+        c_obj = dec.decode(s)
+        c = np.asarray(c_obj)
     except Exception as e:
         MON.active = False
         where = panqec_frame(e)
@@ -289,6 +291,11 @@ def observe_decode(out, dname, code, dec, error_int, desc, mech, bad_edges):
         return
     MON.active = False
     out.count('decodes_observed')
+    if len(RETAINED) < 400:
+        # callers collect corrections over a batch: what was returned must
+        # still be what it was when later decodes have run (checked at the
+        # end of the batch)
+        RETAINED.append((c_obj, np.array(c, copy=True), desc, mech))
     if c.shape != (2 * n,) or np.any(c[:n]):
         out.violation(f'{mech}/returned-correction-not-Z-only',
                       'decode returned a correction with an X part', desc)
@@ -317,6 +324,22 @@ def observe_decode(out, dname, code, dec, error_int, desc, mech, bad_edges):
     if MON.any_flip and len(out.samples) < 4:
         out.sample(dict(desc, steps=MON.step,
                         flips=sum(1 for _ in MON.parity)))
+
+
+RETAINED = []
+
+
+def check_retained(out):
+    for c_obj, snap, desc, mech in RETAINED:
+        out.count('retained_corrections_rechecked')
+        now = np.asarray(c_obj)
+        if now.shape != snap.shape or not np.array_equal(now, snap):
+            out.violation(f'{mech}/returned-correction-changed-by-later-'
+                          'decode', 'a correction returned earlier by the '
+                          'same decoder no longer holds the value it was '
+                          'returned with', desc)
+            break
+    del RETAINED[:]
 
 
 def z_error(n, qubits):
@@ -381,6 +404,7 @@ def run_traj(task, out):
                                        if (e >> (n + i)) & 1][:40],
                     'error_x_weight': gf2.popcount(e & ((1 << n) - 1))}
             observe_decode(out, dname, code, dec, e, desc, mech, bad_edges)
+        check_retained(out)
     MON = None
 
 
